@@ -169,6 +169,22 @@ class DropIn(Monitor):
                         if [str(q) for q in r.parameters.values()] != [str(q) for q in value.parameters.values()]:
                             self.V('plain-parameters-change-signature', '%s prints other parameters' % label, dict(w, got=str(r)))
                             break
+                    # ... and once more with defaults that compare (and hash) EQUAL to the ones just handed over without
+                    # being them (1 / True, 2 / 2.0): the signature built is built from THESE parameters
+                    eqd = {q.name: (True if q.default == 1 else float(q.default)) for q in plain_ps
+                           if type(q.default) is int}
+                    if eqd:
+                        ctx.count('C14.plain_parameters_with_equal_but_distinct_defaults')
+                        plain2 = [q.replace(default=eqd[q.name]) if q.name in eqd else q for q in plain_ps]
+                        want2 = inspect.Signature(plain2)
+                        for label, build in (('UpgradedSignature(<plain parameters>)', lambda: S(plain2)),
+                                             ('replace(parameters=<plain parameters>)', lambda: value.replace(parameters=plain2))):
+                            r = build()
+                            if [str(q) for q in r.parameters.values()] != [str(q) for q in want2.parameters.values()] or \
+                                    [q.name for q in r.parameters.values() if q.name in eqd and q.default is not eqd[q.name]]:
+                                self.V('plain-parameters-equal-defaults-confused', '%s, given defaults that compare equal to earlier ones (True for 1, 2.0 for 2), does not carry the defaults given' % label,
+                                       dict(w, got=str(r), expected=str(want2)))
+                                break
             # every field overridden alone, also with falsy values: the override wins, everything else is kept
             empty_map = {}
             for label, kw, check in (
